@@ -69,6 +69,8 @@ func (f *Dolist) Call(s *slip.Scope, args slip.List, depth int) slip.Object {
 			// leave list as empty list
 		case slip.List:
 			list = t1
+		case *slip.ReturnResult, *GoTo:
+			return loopExit(t1)
 		default:
 			slip.TypePanic(s, depth, "dolist input list", t1, "list")
 		}
@@ -108,5 +110,5 @@ func (f *Dolist) Call(s *slip.Scope, args slip.List, depth int) slip.Object {
 	}
 	ns.UnsafeLet(sym, nil)
 
-	return ns.Eval(rform, d2)
+	return loopExit(ns.Eval(rform, d2))
 }
